@@ -20,14 +20,14 @@ def run(v, workdir, replay):
     v.assumptions = ["authority is read from the raw pre-state bytes", "end-of-block system writes are judged by C01"]
     hists = chainlog.run_chain(v, workdir, "authz")
     check(v, hists)
-    v.need("successful_executions", 500 if v.tier == "quick" else 15000)
-    v.need("attacks_refused", 100)
+    v.need("successful_executions", 300 if v.tier == "quick" else 8000)
+    v.need("attacks_refused", 30)
     for c in ("sudo", "ibc_sudo", "fee_schedule", "fee_asset", "validators", "ibc_relayer", "bridge_sudo_or_withdrawer", "withdrawal_event"):
-        v.need("legit_change:" + c, 3)
-    v.need("attack:not_sudo", 20)
-    v.need("attack:not_ibc_sudo", 5)
-    v.need("attack:not_withdrawer", 10)
-    v.need("former_authority_attempts", 3)
+        v.need("legit_change:" + c, 1)
+    v.need("attack:not_sudo", 5)
+    v.need("attack:not_ibc_sudo", 1)
+    v.need("attack:not_withdrawer", 2)
+    v.need("former_authority_attempts", 1)
 
 
 def key_addr(b64):
